@@ -32,7 +32,10 @@ macro_rules! monitors {
 
 monitors! {
     "C02" => c02,
+    "C03" => c03,
+    "C04" => c04,
     "C08" => c08,
+    "C17" => c17,
 }
 
 pub fn assumptions(prop: &str) -> Vec<String> {
